@@ -19,7 +19,7 @@ def Owes (st : Stream) (r : Reason) : Prop :=
 def EmitSpec (s s' : Streams) (f : Streams.OutFrame) : Prop :=
   match f with
   | .reset sid r =>
-    ∃ s1 : Store, Evolves SRel RInv s.store s1 ∧ Evolves SRel RInv s1 s'.store ∧
+    ∃ s1 : Store, Evolves SRelAny RInv s.store s1 ∧ Evolves SRelAny RInv s1 s'.store ∧
       ∃ k st1, s1.get? k = some st1 ∧ st1.id = sid ∧ Owes st1 r ∧
         (RInv st1 → ∀ st', s'.store.get? k = some st' → isErr st'.state = true ∧ resetCount st'.pendingSend = 0)
   | _ => True
@@ -43,7 +43,7 @@ theorem done_rank {st : Stream} (h1 : isErr st.state = true) (h2 : resetCount st
   unfold isErr at h1; simp only [Bool.and_eq_true, Bool.not_eq_true'] at h1
   simp [h1.1, h1.2, h2]
 
-theorem EmitSpec.mono_left {s sB s' : Streams} {f : Streams.OutFrame} (e : Evolves SRel RInv s.store sB.store)
+theorem EmitSpec.mono_left {s sB s' : Streams} {f : Streams.OutFrame} (e : Evolves SRelAny RInv s.store sB.store)
     (h : EmitSpec sB s' f) : EmitSpec s s' f := by
   unfold EmitSpec at *
   split
@@ -54,11 +54,11 @@ theorem EmitSpec.mono_left {s sB s' : Streams} {f : Streams.OutFrame} (e : Evolv
   · trivial
 
 theorem emit_close {s sA sE s' : Streams} {id : Nat} {r : Reason} {st : Stream}
-    (evA : Evolves SRel RInv s.store sA.store) (hkA : KeysBelow sA.store)
+    (evA : Evolves SRelAny RInv s.store sA.store) (hkA : KeysBelow sA.store)
     (hgA : sA.store.get? id = some st) (hO : Owes st r)
-    (hE : Evolves SRel RInv sA.store sE.store)
+    (hE : Evolves SRelAny RInv sA.store sE.store)
     (hyE : ∀ st1, sE.store.get? id = some st1 → RInv st → isErr st1.state = true ∧ resetCount st1.pendingSend = 0)
-    (hF : Evolves CoreEq (fun _ => True) sE.store s'.store) (hF' : Evolves SRel RInv sE.store s'.store) :
+    (hF : Evolves CoreEq (fun _ => True) sE.store s'.store) (hF' : Evolves SRelAny RInv sE.store s'.store) :
     EmitSpec s s' (.reset st.id r) := by
   refine ⟨sA.store, evA, hE.trans hF', id, st, hgA, rfl, hO, fun i st' h' => ?_⟩
   rcases hF.back id st' h' with ⟨st1, h1, c⟩ | ⟨hge, _, _⟩
@@ -91,13 +91,13 @@ theorem popFrameC_emit (sd : Stream → Nat → Nat → Stream × List String ×
     split at h
     · cases h
     · next sA id hq =>
-      have evA : Evolves SRel RInv s.store sA.store := by
-        have := qPop_ev (P := SRel) (N := RInv) (Evolves.refl s.store) .pendingSend
+      have evA : Evolves SRelAny RInv s.store sA.store := by
+        have := qPop_ev (P := SRelAny) (N := RInv) (Evolves.refl s.store) .pendingSend
         rw [hq] at this; exact this
       have hkA : KeysBelow sA.store := evA.keysBelow hkb
       dsimp only at h
       -- a recursive call on a state reached from `sA`
-      have recur : ∀ sB : Streams, Evolves SRel RInv s.store sB.store → popFrameC sd n sB m = (s', some f) → EmitSpec s s' f :=
+      have recur : ∀ sB : Streams, Evolves SRelAny RInv s.store sB.store → popFrameC sd n sB m = (s', some f) → EmitSpec s s' f :=
         fun sB e hB => EmitSpec.mono_left e (ih sB m s' f (e.keysBelow hkb) hB)
       split at h
       · -- DATA
